@@ -31,7 +31,21 @@ SIGS_API = {
     'reconcile_spike_trains_bi': ([('spike_train1', 'train'), ('spike_train2', 'train')], 'trainpair'),
     'merge_spike_trains': ([('spike_trains', 'trainlist')], 'train'),
 }
-LEAN_TY = {'rat': 'Rat', 'ratlist': 'List Rat', 'train': 'PyTrain', 'trainlist': 'List PyTrain', 'bool': 'Bool',
+SIGS_THRESH = {
+    'default_thresh_': ([('train_list', 'ratlistlist'), ('t_start', 'rat'), ('t_end', 'rat')], 'rat'),
+    'default_thresh': ([('spike_train_list', 'trainlist')], 'rat'),
+}
+SIGS_TRAIN = {      # methods of class SpikeTrain; `self` is the object
+    'get_spikes_non_empty': ([('self', 'train')], 'ratlist'),
+    'copy': ([('self', 'train')], 'train'),
+    'sort': ([('self', 'train')], 'train'),       # assigns an attribute of self and returns None: emitted as returning the updated object
+}
+# functions whose result is a square root: the radicand is emitted under the name <f>_sq (√ is outside ℚ); every `return`
+# of such a function is squared accordingly (`np.sqrt(e)` ↦ e, a call of another such function ↦ its `_sq`, a number c ↦ c·c)
+SQ_FUNCS = {'default_thresh_', 'default_thresh'}
+FUELED = {'default_thresh_', 'default_thresh', 'isi_lengths'}      # take the loop fuel `F` as first argument
+EXTERNAL = {'isi_lengths': ('PySpike.GenIsiLen.isi_lengths', [('spike_times', 'ratlist'), ('t_start', 'rat'), ('t_end', 'rat')], 'ratlist')}
+LEAN_TY = {'int': 'Int', 'rat': 'Rat', 'ratlist': 'List Rat', 'train': 'PyTrain', 'trainlist': 'List PyTrain', 'bool': 'Bool',
            'trainpair': 'PyTrain × PyTrain', 'ratlistlist': 'List (List Rat)'}
 ELEM = {'ratlist': 'rat', 'trainlist': 'train', 'ratlistlist': 'ratlist'}
 LISTOF = {v: k for k, v in ELEM.items()}
@@ -39,15 +53,18 @@ ATTR = {'spikes': 'ratlist', 't_start': 'rat', 't_end': 'rat'}
 
 
 class ApiFn:
-    def __init__(self, name, node, sig, ret):
+    def __init__(self, name, node, sig, ret, sigs=None, src='spikes.py'):
         self.name, self.node, self.sig, self.ret = name, node, sig, ret
+        self.sigs = SIGS_API if sigs is None else sigs
+        self.src = src
+        self.sq = name in SQ_FUNCS
         self.env = {n: t for n, t in sig}
         self.fresh = set()          # trainlist locals known to hold freshly constructed, pairwise distinct objects
         self.k = 0
         self.lines = []
 
     def bad(self, node, why):
-        raise Untranslatable('spikes.py:%s line %s: %s' % (self.name, getattr(node, 'lineno', '?'), why))
+        raise Untranslatable('%s:%s line %s: %s' % (self.src, self.name, getattr(node, 'lineno', '?'), why))
 
     def tmp(self):
         self.k += 1
@@ -63,6 +80,10 @@ class ApiFn:
             return ratlit(e.value), 'rat'
         if isinstance(e, ast.Constant) and isinstance(e.value, bool):
             return ('true' if e.value else 'false'), 'bool'
+        if isinstance(e, ast.Constant) and isinstance(e.value, int):
+            return '(%d : Int)' % e.value, 'int'
+        if isinstance(e, ast.List) and not e.elts:
+            return '([] : List Rat)', 'ratlist'          # an empty list display: a list of floats (any other later use is a type error here)
         if isinstance(e, ast.Attribute) and e.attr in ATTR:
             c, t = self.cx(e.value, env, top)
             if t != 'train':
@@ -70,14 +91,34 @@ class ApiFn:
             return '%s.%s' % (c, e.attr), ATTR[e.attr]
         if isinstance(e, ast.BinOp) and isinstance(e.op, (ast.Add, ast.Sub, ast.Mult, ast.Div)):
             a, ta = self.cx(e.left, env, top); b, tb = self.cx(e.right, env, top)
+            if (ta, tb) == ('ratlist', 'ratlist') and isinstance(e.op, ast.Mult):
+                return self.partial('vZip (fun x y => x * y) %s %s' % (a, b), 'ratlist', top, e)
+            if (ta, tb) == ('rat', 'int') and isinstance(e.op, ast.Div):
+                b, tb = '((%s : Int) : Rat)' % b, 'rat'       # float / int: true division in every Python version
             if ta != 'rat' or tb != 'rat':
                 self.bad(e, 'arithmetic on non-floats')
             return '(%s %s %s)' % (a, {ast.Add: '+', ast.Sub: '-', ast.Mult: '*', ast.Div: '/'}[type(e.op)], b), 'rat'
         if isinstance(e, ast.Compare) and len(e.ops) == 1 and isinstance(e.ops[0], (ast.Lt, ast.Gt, ast.LtE, ast.GtE)):
             a, ta = self.cx(e.left, env, top); b, tb = self.cx(e.comparators[0], env, top)
-            if ta != 'rat' or tb != 'rat':
-                self.bad(e, 'comparison of non-floats')
+            if (ta, tb) not in (('rat', 'rat'), ('int', 'int')):
+                self.bad(e, 'comparison of non-numbers / mixed numbers')
             return 'decide (%s %s %s)' % (a, {ast.Lt: '<', ast.Gt: '>', ast.LtE: '≤', ast.GtE: '≥'}[type(e.ops[0])], b), 'bool'
+        if isinstance(e, ast.Compare) and len(e.ops) == 1 and isinstance(e.ops[0], ast.Eq):
+            a, ta = self.cx(e.left, env, top); b, tb = self.cx(e.comparators[0], env, top)
+            if (ta, tb) != ('int', 'int'):
+                self.bad(e, '== on non-integers')
+            return 'decide (%s = %s)' % (a, b), 'bool'
+        if isinstance(e, ast.Call) and isinstance(e.func, ast.Attribute) and e.func.attr == 'copy' and not e.args and not e.keywords \
+                and not (isinstance(e.func.value, ast.Name) and e.func.value.id == 'np'):
+            c, t = self.cx(e.func.value, env, top)
+            if t != 'ratlist':
+                self.bad(e, '.copy() of a non-array')
+            return c, 'ratlist'                           # values are immutable here: a copy is the same value
+        if isinstance(e, ast.Call) and isinstance(e.func, ast.Attribute) and e.func.attr == 'tolist' and not e.args and not e.keywords:
+            c, t = self.cx(e.func.value, env, top)
+            if t != 'ratlist':
+                self.bad(e, '.tolist() of a non-array')
+            return c, 'ratlist'
         if isinstance(e, ast.BoolOp) and isinstance(e.op, ast.And):
             parts = [self.cx(v, env, top) for v in e.values]
             if any(t != 'bool' for _, t in parts):
@@ -122,6 +163,31 @@ class ApiFn:
                 if t != 'ratlist':
                     self.bad(e, '%s of a non-list of floats' % fn)
                 return self.partial('%s %s' % ('pyMin' if fn == 'min' else 'pyMax', c), 'rat', top, e)
+            if fn == 'np.insert' and len(e.args) == 3 and not e.keywords and isinstance(e.args[1], ast.Constant) and isinstance(e.args[1].value, int) and e.args[1].value >= 0:
+                a, ta = self.cx(e.args[0], env, top); v, tv = self.cx(e.args[2], env, top)
+                if ta != 'ratlist' or tv != 'ratlist':
+                    self.bad(e, 'np.insert argument types')
+                return self.partial('npInsert %s %d %s' % (a, e.args[1].value, v), 'ratlist', top, e)
+            if fn == 'len' and len(e.args) == 1 and not e.keywords:
+                c, t = self.cx(e.args[0], env, top)
+                if t not in ELEM:
+                    self.bad(e, 'len of a non-list')
+                return '((%s).length : Int)' % c, 'int'
+            if fn == 'np.array' and len(e.args) == 1 and not e.keywords:
+                c, t = self.cx(e.args[0], env, top)
+                if t != 'ratlist':
+                    self.bad(e, 'np.array of something that is not a list of floats')
+                return c, 'ratlist'
+            if fn == 'np.sum' and len(e.args) == 1 and not e.keywords:
+                c, t = self.cx(e.args[0], env, top)
+                if t != 'ratlist':
+                    self.bad(e, 'np.sum of a non-array')
+                return '(vSum %s)' % c, 'rat'
+            if fn in EXTERNAL and not e.keywords and len(e.args) == len(EXTERNAL[fn][1]) and self.sigs is SIGS_THRESH:
+                args = [self.cx(a, env, top) for a in e.args]
+                if [t for _, t in args] != [t for _, t in EXTERNAL[fn][1]]:
+                    self.bad(e, 'argument types of %s' % fn)
+                return self.partial('%s F %s' % (EXTERNAL[fn][0], ' '.join(c for c, _ in args)), EXTERNAL[fn][2], top, e)
             if fn in ('np.unique', 'np.sort') and len(e.args) == 1 and not e.keywords:
                 c, t = self.cx(e.args[0], env, top)
                 if t != 'ratlist':
@@ -146,11 +212,13 @@ class ApiFn:
                         self.bad(e, 'is_sorted is not a literal')
                     srt = 'true' if kws['is_sorted'].value else 'false'
                 return '(mkTrain %s %s %s %s)' % (sp, a, b, srt), 'train'
-            if fn in SIGS_API and not e.keywords and len(e.args) == len(SIGS_API[fn][0]):
+            if fn in self.sigs and not e.keywords and len(e.args) == len(self.sigs[fn][0]):
                 args = [self.cx(a, env, top) for a in e.args]
-                if [t for _, t in args] != [t for _, t in SIGS_API[fn][0]]:
+                if [t for _, t in args] != [t for _, t in self.sigs[fn][0]]:
                     self.bad(e, 'argument types of %s' % fn)
-                return self.partial('%s %s' % (fn, ' '.join(c for c, _ in args)), SIGS_API[fn][1], top, e)
+                if fn in SQ_FUNCS:
+                    self.bad(e, 'the value of a square-root function is used other than as the returned value')
+                return self.partial('%s %s%s' % (fn, 'F ' if fn in FUELED else '', ' '.join(c for c, _ in args)), self.sigs[fn][1], top, e)
         self.bad(e, 'expression not in the translated subset: %s' % ast.dump(e)[:80])
 
     def partial(self, code, ty, top, node):
@@ -159,6 +227,37 @@ class ApiFn:
         v = self.tmp()
         self.lines.append('  Option.bind (%s) fun (%s : %s) =>' % (code, v, LEAN_TY[ty]))
         return v, ty
+
+    def tmp_keep(self):
+        self.last_tmp = self.tmp()
+        return self.last_tmp
+
+    def ret_code(self, r):
+        """the returned expression; in a square-root function: its square (see SQ_FUNCS)"""
+        e = r.value
+        if not self.sq:
+            c, t = self.cx(e, self.env, True)
+            if t != self.ret:
+                self.bad(r, 'returns %s, expected %s' % (t, self.ret))
+            return c
+        if isinstance(e, ast.Call) and isinstance(e.func, ast.Attribute) and isinstance(e.func.value, ast.Name) and e.func.value.id == 'np' \
+                and e.func.attr == 'sqrt' and len(e.args) == 1 and not e.keywords:
+            c, t = self.cx(e.args[0], self.env, True)
+            if t != 'rat':
+                self.bad(r, 'np.sqrt of a non-float')
+            return c
+        if isinstance(e, ast.Call) and isinstance(e.func, ast.Name) and e.func.id in SQ_FUNCS and e.func.id in self.sigs and not e.keywords:
+            fn = e.func.id
+            args = [self.cx(a, self.env, True) for a in e.args]
+            if [t for _, t in args] != [t for _, t in self.sigs[fn][0]]:
+                self.bad(r, 'argument types of %s' % fn)
+            v = self.tmp()
+            self.lines.append('  Option.bind (%s_sq F %s) fun (%s : Rat) =>' % (fn, ' '.join(c for c, _ in args), v))
+            return v
+        if isinstance(e, ast.Constant) and isinstance(e.value, (int, float)) and not isinstance(e.value, bool):
+            q = ratlit(float(e.value))
+            return '(%s * %s)' % (q, q)
+        self.bad(r, 'return value of a square-root function is neither np.sqrt(…), a call of such a function, nor a number')
 
     def is_fresh_comp(self, e):
         return isinstance(e, ast.ListComp) and isinstance(e.elt, ast.Call) and isinstance(e.elt.func, ast.Name) and e.elt.func.id == 'SpikeTrain'
@@ -189,7 +288,8 @@ class ApiFn:
                 if self.env.get(n) != 'ratlist':
                     self.bad(s, '.sort() of something that is not a local array')
                 self.lines.append('  let %s : List Rat := npSort %s' % (lname(n), lname(n)))
-            elif isinstance(s, ast.For) and isinstance(s.target, ast.Name) and isinstance(s.iter, ast.Name) and not s.orelse:
+            elif isinstance(s, ast.For) and isinstance(s.target, ast.Name) and isinstance(s.iter, ast.Name) and not s.orelse \
+                    and all(isinstance(b, ast.Assign) for b in s.body):
                 L, v = s.iter.id, s.target.id
                 if self.env.get(L) != 'trainlist' or L not in self.fresh:
                     self.bad(s, 'loop mutating the objects of a list that is not known to hold fresh, distinct objects')
@@ -208,6 +308,54 @@ class ApiFn:
                         self.bad(b, 'attribute type')
                     upd.append('%s := %s' % (b.targets[0].attr, c))
                 self.lines.append('  let %s : List PyTrain := List.map (fun (%s : PyTrain) => { %s with %s }) %s' % (lname(L), lname(v), lname(v), ', '.join(upd), lname(L)))
+            elif isinstance(s, ast.If) and len(s.body) == 1 and len(s.orelse) == 1 and isinstance(s.body[0], ast.Return) and isinstance(s.orelse[0], ast.Return) \
+                    and s.body[0].value is not None and s.orelse[0].value is not None and not self.sq:
+                c, t = self.cx(s.test, self.env, True)
+                if t != 'bool':
+                    self.bad(s, 'condition is not a comparison')
+                outer = self.lines
+                self.lines = []; ra = self.ret_code(s.body[0]); la = self.lines
+                self.lines = []; rb = self.ret_code(s.orelse[0]); lb = self.lines
+                self.lines = outer
+                blk = lambda ls, r: ''.join('  %s\n' % l for l in ls) + '    some %s' % r
+                self.lines.append('  if %s then\n%s\n  else\n%s' % (c, blk(la, ra), blk(lb, rb)))
+                done = True
+            elif isinstance(s, ast.Assign) and len(s.targets) == 1 and isinstance(s.targets[0], ast.Attribute) and isinstance(s.targets[0].value, ast.Name) \
+                    and s.targets[0].value.id == 'self' and self.env.get('self') == 'train' and s.targets[0].attr in ATTR:
+                c, t = self.cx(s.value, self.env, True)
+                if t != ATTR[s.targets[0].attr]:
+                    self.bad(s, 'attribute type')
+                self.lines.append('  let self : PyTrain := { self with %s := %s }' % (s.targets[0].attr, c))
+                self.mutated_self = True
+            elif isinstance(s, ast.If) and not s.orelse and len(s.body) == 1 and isinstance(s.body[0], ast.Return) and s.body[0].value is not None:
+                c, t = self.cx(s.test, self.env, True)
+                if t != 'bool':
+                    self.bad(s, 'condition is not a comparison')
+                r = self.ret_code(s.body[0])
+                self.lines.append('  if %s then some %s else' % (c, r))
+            elif isinstance(s, ast.For) and isinstance(s.target, ast.Name) and not s.orelse and len(s.body) == 1 \
+                    and isinstance(s.body[0], ast.AugAssign) and isinstance(s.body[0].op, ast.Add) and isinstance(s.body[0].target, ast.Name):
+                # `for v in L: acc += e(v)` on a list accumulator: a left fold in the Option monad
+                acc, v = s.body[0].target.id, s.target.id
+                it, tit = self.cx(s.iter, self.env, True)
+                if self.env.get(acc) != 'ratlist' or tit not in ELEM or acc == v:
+                    self.bad(s, 'accumulation loop of an unsupported shape')
+                if any(isinstance(x, ast.Name) and x.id == acc for x in ast.walk(s.body[0].value)) or \
+                        any(isinstance(x, ast.Name) and x.id == acc for x in ast.walk(s.iter)):
+                    self.bad(s, 'the accumulator is read inside its own update')
+                env2 = dict(self.env); env2[v] = ELEM[tit]
+                saved, self.lines = self.lines, []
+                c, t = self.cx(s.body[0].value, env2, True)
+                inner, self.lines = self.lines, saved
+                if t != 'ratlist':
+                    self.bad(s, 'accumulating a non-list')
+                body = ' '.join(l.strip() for l in inner) + ' some (acc_ ++ %s)' % c
+                self.lines.append('  Option.bind (List.foldlM (fun (acc_ : List Rat) (%s : %s) => %s) %s %s) fun (%s : List Rat) =>' % (
+                    lname(v), LEAN_TY[ELEM[tit]], body, lname(acc), it, self.tmp_keep()))
+                self.lines.append('  let %s : List Rat := %s' % (lname(acc), self.last_tmp))
+            elif isinstance(s, ast.Return) and s.value is not None and self.sq:
+                self.lines.append('  some %s' % self.ret_code(s))
+                done = True
             elif isinstance(s, ast.Return) and s.value is not None:
                 if isinstance(s.value, ast.Tuple) and len(s.value.elts) == 2:
                     a, ta = self.cx(s.value.elts[0], self.env, True); b, tb = self.cx(s.value.elts[1], self.env, True)
@@ -223,9 +371,14 @@ class ApiFn:
             else:
                 self.bad(s, 'statement not in the translated subset')
         if not done:
-            self.bad(self.node, 'no return')
-        head = '/-- `%s` (spikes.py line %d) -/\ndef %s %s : Option (%s) :=' % (
-            self.name, self.node.lineno, self.name, ' '.join('(%s : %s)' % (lname(n), LEAN_TY[t]) for n, t in self.sig), LEAN_TY[self.ret])
+            if getattr(self, 'mutated_self', False) and self.ret == 'train':
+                self.lines.append('  some self')       # the method returns None; its effect is the updated object
+            else:
+                self.bad(self.node, 'no return')
+        head = '/-- `%s` (%s line %d)%s -/\ndef %s%s %s%s : Option (%s) :=' % (
+            self.name, self.src, self.node.lineno, ': the SQUARE of the returned value (the source returns its square root)' if self.sq else '',
+            self.name, '_sq' if self.sq else '', '(F : Nat) ' if self.name in FUELED else '',
+            ' '.join('(%s : %s)' % (lname(n), LEAN_TY[t]) for n, t in self.sig), LEAN_TY[self.ret])
         return head + '\n' + '\n'.join(self.lines) + '\n'
 
 
@@ -259,9 +412,70 @@ def generate_api(repo='/repo'):
     return '\n'.join(out)
 
 
+def generate_train(repo='/repo'):
+    rel = 'pyspike/SpikeTrain.py'
+    tree = ast.parse(open(os.path.join(repo, rel), 'rb').read().decode('utf-8'))
+    names = list(SIGS_TRAIN)
+    check_no_rebinding(tree, names, 'SpikeTrain.py', cls='SpikeTrain')
+    imps = {(a.asname or a.name): (getattr(n, 'module', None), a.name) for n in tree.body if isinstance(n, (ast.Import, ast.ImportFrom)) for a in n.names}
+    if imps.get('np') != (None, 'numpy'):
+        raise Untranslatable('SpikeTrain.py: `np` is not numpy')
+    cls = [n for n in tree.body if isinstance(n, ast.ClassDef) and n.name == 'SpikeTrain'][0]
+    if [getattr(b, 'id', None) for b in cls.bases] != ['object'] or cls.keywords or cls.decorator_list:
+        raise Untranslatable('SpikeTrain.py: class SpikeTrain has bases / a metaclass / decorators')
+    if any(isinstance(n, ast.FunctionDef) and n.name in ('__getattr__', '__getattribute__', '__setattr__') for n in cls.body):
+        raise Untranslatable('SpikeTrain.py: attribute access is customised')
+    for n in tree.body:
+        for t in (n.targets if isinstance(n, ast.Assign) else []):
+            for x in ast.walk(t):
+                if isinstance(x, ast.Name) and x.id in ('np', 'len', 'SpikeTrain'):
+                    raise Untranslatable('SpikeTrain.py: %s is re-bound at module level' % x.id)
+    out = ['/-\n  Gen/ApiTrain.lean — GENERATED by harness/py2lean_api.py from pyspike/SpikeTrain.py of /repo. Do not edit.\n-/\n'
+           'import PySpikeVerif.Gen.PreludeApi\n'
+           'set_option linter.unusedVariables false\n' +
+           source_digest(repo, [rel]) +
+           'namespace PySpike.GenApi.SpikeTrain\nopen PySpike.Gen\n']
+    for nm in names:
+        node = [n for n in cls.body if isinstance(n, ast.FunctionDef) and n.name == nm][0]
+        sig, ret = SIGS_TRAIN[nm]
+        out.append(ApiFn(nm, node, sig, ret, sigs=SIGS_TRAIN, src='SpikeTrain.py').translate())
+    out.append('end PySpike.GenApi.SpikeTrain\n')
+    return '\n'.join(out)
+
+
+def generate_thresh(repo='/repo'):
+    rel = 'pyspike/isi_lengths.py'
+    tree = ast.parse(open(os.path.join(repo, rel), 'rb').read().decode('utf-8'))
+    names = list(SIGS_THRESH)
+    check_no_rebinding(tree, names + ['isi_lengths'], 'isi_lengths.py')
+    imps = {(a.asname or a.name): (getattr(n, 'module', None), a.name) for n in tree.body if isinstance(n, (ast.Import, ast.ImportFrom)) for a in n.names}
+    if imps.get('np') != (None, 'numpy'):
+        raise Untranslatable('isi_lengths.py: `np` is not numpy')
+    for n in tree.body:
+        for t in (n.targets if isinstance(n, ast.Assign) else []):
+            for x in ast.walk(t):
+                if isinstance(x, ast.Name) and x.id in ('np', 'len'):
+                    raise Untranslatable('isi_lengths.py: %s is re-bound at module level' % x.id)
+        if isinstance(n, (ast.FunctionDef, ast.ClassDef)) and n.name in ('np', 'len'):
+            raise Untranslatable('isi_lengths.py: %s is re-defined' % n.name)
+    out = ['/-\n  Gen/ApiThresh.lean — GENERATED by harness/py2lean_api.py from pyspike/isi_lengths.py of /repo. Do not edit.\n-/\n'
+           'import PySpikeVerif.Gen.PreludeApi\nimport PySpikeVerif.Gen.IsiLengths\n'
+           'set_option linter.unusedVariables false\n' +
+           source_digest(repo, [rel]) +
+           'namespace PySpike.GenApi\nopen PySpike.Gen\n']
+    for nm in names:
+        node = [n for n in tree.body if isinstance(n, ast.FunctionDef) and n.name == nm][0]
+        sig, ret = SIGS_THRESH[nm]
+        out.append(ApiFn(nm, node, sig, ret, sigs=SIGS_THRESH, src='isi_lengths.py').translate())
+    out.append('end PySpike.GenApi\n')
+    return '\n'.join(out)
+
+
 if __name__ == '__main__':
     try:
-        sys.stdout.write(generate_api(sys.argv[1] if len(sys.argv) > 1 else '/repo'))
+        repo_ = sys.argv[1] if len(sys.argv) > 1 else '/repo'
+        which = sys.argv[2] if len(sys.argv) > 2 else 'api'
+        sys.stdout.write({'thresh': generate_thresh, 'train': generate_train, 'api': generate_api}[which](repo_))
     except Untranslatable as ex:
         sys.stderr.write('Untranslatable: %s\n' % ex)
         sys.exit(3)
